@@ -11,21 +11,6 @@ pub open spec fn inv_core<K, V>(blocks: Seq<BlockHash>, tib: Map<BlockHash, Vec<
     &&& (forall|i: int, j: int| 0 <= i < j < blocks.len() ==> #[trigger] keys_at(blocks, tib, i).disjoint(#[trigger] keys_at(blocks, tib, j)))
 }
 
-pub proof fn lemma_push_contains<K>(s: Seq<K>, k: K)
-    ensures forall|x: K| #[trigger] s.push(k).contains(x) <==> (x == k || s.contains(x)),
-{
-    assert forall|x: K| #[trigger] s.push(k).contains(x) <==> (x == k || s.contains(x)) by {
-        if s.push(k).contains(x) {
-            let i = choose|i: int| 0 <= i < s.push(k).len() && s.push(k)[i] == x;
-            if i < s.len() { assert(s[i] == x); }
-        }
-        if s.contains(x) {
-            let i = choose|i: int| 0 <= i < s.len() && s[i] == x;
-            assert(s.push(k)[i] == x);
-        }
-        assert(s.push(k)[s.len() as int] == k);
-    }
-}
 
 // one step of `for (k, v) in map.iter()`: the keys not yet visited shrink by exactly the visited key
 pub proof fn lemma_iter_step<K, V>(data: Map<K, V>, s: Seq<(&K, &V)>, idx: int, ks0: Seq<K>, ks1: Seq<K>, k: K)
